@@ -4,7 +4,9 @@
 (*   id, entry, lines (abstract lines as rendered), nl (number of lines of  *)
 (*   the text), obs = [k: accept|error|internal|timeout, n: line of the     *)
 (*   ParserError, exc: exception type], fl (line of an injected fault, 0 =  *)
-(*   none).                                                                 *)
+(*   none: then the judge takes the line at which the grammar stops, so     *)
+(*   that EVERY row that is an accepted document plus one catalogued fault  *)
+(*   is judged by C05.fault_line with the exact line).                      *)
 (* Clauses speak about the OBSERVED outcome only.  The machine is used (a)  *)
 (* to decide whether line fl is a catalogued grammar violation injected     *)
 (* into a document the grammar accepts and (b) for the informational        *)
@@ -31,11 +33,16 @@ FaultKind(ps, ln) ==
    ELSE IF c = "Row" /\ ps.state = "table" /\ ps.hasTable /\ Len(ln.ps) # Len(ps.trows[1].cells) THEN "row_wrong_cells"
    ELSE IF c = "Tags" /\ ln.a = "bad" THEN "bad_tag"
    ELSE ""
-\* the fault of row r ("" if line fl is not a catalogued fault in an otherwise accepted document)
-Fault(r) ==
-   IF r.fl = 0 \/ r.fl > Len(r.lines) THEN ""
-   ELSE IF Run(r.entry, Without(r.lines, r.fl)).res.k # "live" THEN ""
-   ELSE FaultKind(Prefix(r.entry, SubSeq(r.lines, 1, r.fl - 1)), r.lines[r.fl])
+\* the candidate line: the one the driver injected (fl), else the line at which the grammar (the machine) stops
+Pred(r) == Outcome(Run(r.entry, r.lines))
+FaultLine(r) == IF r.fl # 0 THEN r.fl ELSE LET p == Pred(r) IN IF p.k = "error" THEN p.n ELSE 0
+\* the fault of row r at line k ("" if line k is not a catalogued fault in an otherwise accepted document)
+FaultAt(r, k) ==
+   IF k = 0 \/ k > Len(r.lines) THEN ""
+   ELSE IF Run(r.entry, Without(r.lines, k)).res.k # "live" THEN ""
+   ELSE IF r.entry = "tags" THEN          \* parse_tags: a line that is neither blank nor comment and has a word without '@'
+        (IF r.lines[k].c \notin {"_", "#", "Lang"} /\ (r.lines[k].c # "Tags" \/ r.lines[k].a = "bad") THEN "bad_tag" ELSE "")
+   ELSE FaultKind(Prefix(r.entry, SubSeq(r.lines, 1, k - 1)), r.lines[k])
 
 Clauses(r) ==
    LET o == r.obs IN
@@ -44,18 +51,18 @@ Clauses(r) ==
  \cup (IF o.k = "error" /\ ~(1 <= o.n /\ o.n <= r.nl) THEN {"C05.line_range"} ELSE {})
  \cup (IF o.k \notin {"accept", "error", "internal", "timeout"} THEN {"C05.internal"} ELSE {})
 
-Pred(r) == Outcome(Run(r.entry, r.lines))
 Agrees(p, o) == \/ p.k = "accept" /\ o.k = "accept"
                 \/ p.k = "error" /\ o.k = "error" /\ p.n = o.n
                 \/ p.k = "crash" /\ o.k = "internal" /\ p.why = o.exc
 
 Next == /\ i <= Len(Rows)
         /\ \A c \in Clauses(R) : PrintT(<<"VERDICT", R.id, c>>)
-        /\ LET f == Fault(R) IN
+        /\ LET k == FaultLine(R)
+               f == FaultAt(R, k) IN
            IF f = "" THEN TRUE
-           ELSE /\ PrintT(<<"FAULT", R.id, f>>)
-                /\ IF R.obs.k \in {"accept", "error"} /\ ~(R.obs.k = "error" /\ R.obs.n = R.fl)
-                   THEN PrintT(<<"VERDICT", R.id, "C05.fault_line", f>>) ELSE TRUE
+           ELSE /\ PrintT(<<"FAULT", R.id, f, k>>)
+                /\ IF R.obs.k \in {"accept", "error"} /\ ~(R.obs.k = "error" /\ R.obs.n = k)
+                   THEN PrintT(<<"VERDICT", R.id, "C05.fault_line", f, k>>) ELSE TRUE
         /\ LET p == Pred(R) IN IF Agrees(p, R.obs) THEN TRUE ELSE PrintT(<<"DIV", R.id, p.k, p.n, p.why>>)
         /\ i' = i + 1
 Spec == Init /\ [][Next]_i
